@@ -43,7 +43,7 @@ P1 = {
     "min_top": 1,
     "flags": {"-n": 0.15, "-v": 0.15},
 }
-MUT = ["overwrite_same", "overwrite_diff", "append", "truncate", "rm", "rmdir_empty", "rmtree", "add", "add_dir", "mv", "touch", "dsstore"]
+MUT = ["overwrite_same", "overwrite_diff", "append", "truncate", "empty", "rm", "rmdir_empty", "rmtree", "add", "add_dir", "mv", "touch", "dsstore"]
 
 
 @st.composite
@@ -60,7 +60,7 @@ def _scn(draw):
         kind = draw(st.sampled_from(MUT))
         files = [f for f in sorted(m.files) if f not in used]
         dirs = [d for d in sorted(m.dirs) if not m.has_root_below(d) and d not in used]
-        if kind in ("overwrite_same", "overwrite_diff", "append", "truncate", "rm") and files:
+        if kind in ("overwrite_same", "overwrite_diff", "append", "truncate", "empty", "rm") and files:
             f = draw(st.sampled_from(files))
             muts.append({"kind": kind, "path": f, "salt": draw(st.integers(0, 255))})
             used.add(f)
@@ -236,9 +236,11 @@ def run_case(scn, ctx):
             k = mu["kind"]
             P = lambda p: hist.wpath(scn, p)
             touched = P(mu.get("path") or mu.get("src"))
-            if k in ("overwrite_same", "overwrite_diff", "append", "truncate"):
+            if k in ("overwrite_same", "overwrite_diff", "append", "truncate", "empty"):
                 old = w.files[touched]
-                if k == "overwrite_same":
+                if k == "empty":
+                    new = b"" if old else b"no longer empty"
+                elif k == "overwrite_same":
                     new = bytes((b ^ (mu["salt"] | 1)) for b in old) if old else b"\x01"
                 elif k == "overwrite_diff":
                     new = b"other-%d-" % mu["salt"] + old[: len(old) // 2]
